@@ -21,6 +21,7 @@ def run(prog, chk):
         "subroutiniser dispatch is exhaustive over the backend enum; version-default table covers every CFF version (R12.1)",
         "the subroutiniser that runs is the one the caller asked for, the version default only when none was requested: unsupported combinations reach their NotImplementedError (R12.7)",
         "the encoding options are read by the compilers, the outline compiler and the post-processor only: no pre-processor / filter / feature code sees them, not even as a parameter name (R12.8)",
+        "default / nominal width are made integers by their one producer and used unchanged by the charstring compiler and the Private DICT writer (R12.9)",
         "unsupported combinations reach NotImplementedError: compreffor with non-CFF1, CFF2->CFF without subroutinising, unknown post format (R12.2)",
         "specialise iff >= SPECIALIZE, subroutinise iff >= SUBROUTINIZE, consistent with the IntEnum order; interpolatable masters force NONE (R12.3)",
         "options optimizeCFF/cffVersion/subroutinizer/roundTolerance reach their consumer by name (R12.4)",
@@ -217,6 +218,7 @@ def run(prog, chk):
     chk.guard(r126, prog, chk)
     chk.guard(r127, prog, chk)
     chk.guard(r128, prog, chk)
+    chk.guard(r129, prog, chk)
 
 
 def masters_force_none(prog, chk, rule):
@@ -385,7 +387,49 @@ def r128(prog, chk):
     chk.minimum("R12.8", 1)
 
 
+
+# ----------------------------------------------------------------------------- R12.9
+def r129(prog, chk):
+    """The charstrings encode their width relative to nominalWidthX / defaultWidthX, and the Private DICT stores the same two
+    numbers: both consumers take them from getDefaultAndNominalWidths unchanged, and that one producer makes them integers
+    (explicit font-info values go through otRound there; the computed optimum is built from rounded advances)."""
+    ix = prog.ix
+    g = ix.get_method(OTF_OUTLINE, "getDefaultAndNominalWidths", own=True)
+    calls = [c for c in A.body_nodes(g.node) if isinstance(c, ast.Call) and A.callee_name(c) == "getAttrWithFallback" and len(c.args) == 2
+             and isinstance(c.args[1], ast.Constant) and c.args[1].value in ("postscriptDefaultWidthX", "postscriptNominalWidthX")]
+    need(len(calls) == 2, f"cannot interpret {g.short}: explicit widths")
+    for c in calls:
+        par = ix.parent(c)
+        ok = isinstance(par, ast.Call) and A.callee_name(par) == "otRound" and par.args and par.args[0] is c
+        chk.ob("R12.9", f"{g.short}|{c.args[1].value} is rounded where it is produced", ok, where(g, c), detail=T(par, 70) if isinstance(par, ast.AST) else "",
+               message=f"{g.short}: the explicit {c.args[1].value} leaves the producer unrounded: consumers that round it themselves (charstring widths) and consumers that "
+                       f"do not (Private DICT) then disagree, and CFF1 charstrings decode to other advances than hmtx")
+    n = 0
+    for fi in ix.functions.values():
+        if fi is g or not fi.module.name == "ufo2ft.outlineCompiler":
+            continue
+        for c in calls_named(fi, "getDefaultAndNominalWidths"):
+            n += 1
+            st = ix.enclosing_stmt(c)
+            names = A.target_names(st.targets[0]) if isinstance(st, ast.Assign) else []
+            ok = len(names) == 2 and st.value is c
+            if ok:
+                # every use of the two names is a plain read: passed on / stored as it is (no arithmetic, no rounding of one copy only)
+                for nm in names:
+                    for u in A.body_nodes(fi.node):
+                        if isinstance(u, ast.Name) and u.id == nm and isinstance(u.ctx, ast.Load):
+                            pu = ix.parent(u)
+                            if isinstance(pu, (ast.BinOp, ast.UnaryOp)) or (isinstance(pu, ast.Call) and u in pu.args and A.callee_name(pu) in ("otRound", "round", "int", "float")):
+                                ok = False
+            chk.ob("R12.9", f"{fi.short}|the two widths are used as the producer returned them", ok, where(fi, c), detail=T(st, 70),
+                   message=f"{fi.short}: default / nominal width are re-derived or re-rounded at a consumer: the charstrings and the Private DICT can disagree")
+    need(n >= 2, "consumers of getDefaultAndNominalWidths not found")
+    chk.minimum("R12.9", 4)
+
+
 MUTANTS = [
+    M("explicit nominal width rounded by the charstring compiler only (seeded C12h)", "ufo2ft/outlineCompiler.py", "OutlineOTFCompiler.getDefaultAndNominalWidths",
+      "otRound(getAttrWithFallback(info, 'postscriptNominalWidthX'))", "getAttrWithFallback(info, 'postscriptNominalWidthX')", rule="R12.9"),
     M("overlap removal skipped for CFF2 (seeded C12g)", "ufo2ft/preProcessor.py", "OTFPreProcessor.initDefaultFilters",
       "<rename-param>", "overlapsBackend->cffVersion", rule="R12.8"),
     M("an unsupported explicit backend is replaced by the version default (seeded C12f shape)", "ufo2ft/postProcessor.py", "PostProcessor.process_cff",
